@@ -48,7 +48,7 @@ def main():
     # deductive core: "with a fixed-step solver sample k is the value used during integration step k" — every fixed-step loop
     # (NumPy, Torch, JAX; ODE and delayed) hands the vector field the integer step counter i + t0, in BOTH Heun stages
     from checks.c03 import solver_fallback
-    chk.run_contracts("contracts.c03", names=[f"BaseBackend.{m}[{v}]" for m in ("_solve_euler", "_solve_heun") for v in ("ode", "dde")],
+    chk.run_contracts("contracts.c03", names=[f"BaseBackend.{m}[{v}]" for m in ("_solve_euler", "_solve_heun") for v in ("ode", "dde")] + ["is_integration_adaptive"],
                       fallback={"*": solver_fallback(chk)})
     chk.run_contracts("contracts.c02", fallback={"*": lambda: []})
     _cases = families(chk.tier, chk.seed)
